@@ -600,6 +600,17 @@ def relate(lt, fn, self_ty_lifetime, what):
     return "OutFree"
 
 
+def borrows_argument(lt, fn):
+    """does the named output lifetime `lt` also occur in the type of a NON-receiver parameter (the string would then be
+    borrowed from that argument - e.g. from the key - as well, and well-ordered programs whose key dies first are rejected)"""
+    if lt in ("'_", "'static"):
+        return False
+    return any(re.search(r"%s\b" % re.escape(lt), ty) for _, ty in fn.value_params())
+
+
+ARG_BORROWS = []       # (entry point, bool, location): filled by signature_facts
+
+
 def iterator_of(ret, s, what):
     """`Iter<'_, K>` -> (qualified iterator name, lifetime argument)"""
     m = re.fullmatch(r"(Iter|Strings)<('\w+)(?:, [\w, ]+)?>", ret)
@@ -615,6 +626,7 @@ def iterator_of(ret, s, what):
 
 
 def signature_facts(src):
+    del ARG_BORROWS[:]
     sigs = []          # (key, recv, out, iterator or None, location)
     inval = []         # (key, recv, location)
     statics = []       # (key, is_static, location)
@@ -672,6 +684,7 @@ def signature_facts(src):
                 if ret not in ("&str", "Option<&str>") and not re.fullmatch(r"(Option<)?&'\w+ str>?", ret):
                     lose(f"{what}: returns `{ret}`")
                 sigs.append((f"{c}::{name}", kind, relate(str_ref_lifetime(ret, what), f, None, what), None, what))
+                ARG_BORROWS.append((f"{c}::{name}", borrows_argument(str_ref_lifetime(ret, what), f), what))
         for name in INVALIDATING[c]:
             f = one([f for im in inh for f in im.fns if f.name == name], f"inherent {c}::{name}")
             inval.append((f"{c}::{name}", f.receiver()[0], f"src/{s.rel}:{f.line}"))
@@ -738,6 +751,7 @@ def signature_facts(src):
         f = tfns["Resolver"][name]
         what = f"src/interface/mod.rs:{f.line} trait Resolver::{name}"
         sigs.append((f"Resolver::{name}", f.receiver()[0], relate(str_ref_lifetime(norm(f.ret), what), f, None, what), None, what))
+        ARG_BORROWS.append((f"Resolver::{name}", borrows_argument(str_ref_lifetime(norm(f.ret), what), f), what))
     for tr, name in (("IntoReader", "into_reader"), ("IntoReader", "into_reader_boxed"), ("IntoResolver", "into_resolver"), ("IntoResolver", "into_resolver_boxed")):
         f = tfns[tr][name]
         inval.append((f"{tr}::{name}", f.receiver()[0], f"src/interface/mod.rs:{f.line}"))
@@ -752,6 +766,7 @@ def signature_facts(src):
                 what = f"src/interface/{rel}:{f.line} <{w} as {tr}>::{f.name}"
                 if tr == "Resolver" and f.name in RESOLVER_STRING_METHODS:
                     sigs.append((f"Resolver for {w}::{f.name}", f.receiver()[0], relate(str_ref_lifetime(norm(f.ret), what), f, None, what), None, what))
+                    ARG_BORROWS.append((f"Resolver for {w}::{f.name}", borrows_argument(str_ref_lifetime(norm(f.ret), what), f), what))
                 elif re.search(r"\bstr\b", f.ret):
                     lose(f"{what} returns `{norm(f.ret)}`")
                 if tr in ("IntoReader", "IntoResolver"):
@@ -990,6 +1005,9 @@ def generate():
     o.append("Definition invalidating : list (string * recv) := " +
              coq_list([f"({coq_str(k)}, {r})  {cmt(loc.split(' ')[0])}" for k, r, loc in sorted(inval)]) + ".")
     o.append("(* static entry points: is the string parameter exactly &'static str *)")
+    o.append("(* string-returning entry points: is the returned &str ALSO tied to a non-receiver argument (the key)? *)")
+    o.append("Definition out_borrows_argument : list (string * bool) := " +
+             coq_list([f"({coq_str(k)}, {coq_bool(v)})  {cmt(loc.split(' ')[0])}" for k, v, loc in sorted(ARG_BORROWS)]) + ".")
     o.append("Definition static_entries : list (string * bool) := " +
              coq_list([f"({coq_str(k)}, {coq_bool(v)})  {cmt(loc.split(' ')[0])}" for k, v, loc in sorted(statics)]) + ".")
     o.append("")
